@@ -1,5 +1,10 @@
 package mint
 
+import (
+	"github.com/tellor-io/layer/x/mint/keeper"
+	"github.com/tellor-io/layer/x/mint/types"
+)
+
 // VerifC01_mint_wallclock: BeginBlocker run twice from identical states (time.Now is a fresh arbitrary instant at
 // every call in both runs): same error-ness, same bank effects, same stored minter.
 func VerifC01_mint_wallclock() {
@@ -20,5 +25,41 @@ func VerifC01_mint_wallclock() {
 	}
 	ndAssert(same, "same-stored-previous-time")
 	ndAssert(ndEventCount(ctx1) == ndEventCount(ctx2), "same-number-of-events")
+	ndReach("ran")
+}
+
+// VerifC01_mint_init_wallclock: the governance message that starts minting, followed by the next block's
+// BeginBlocker, executed on two nodes from identical states (time.Now is a fresh arbitrary instant at every call on
+// both): same outcome of the message, same stored minter after it, same minted amount and state after the block.
+func VerifC01_mint_init_wallclock() {
+	ctx1, k1, bank1, initialized, hasPrev, prev, now := vMintSetup("")
+	ctx2, k2, bank2, _, _, _, _ := vMintSetup("")
+	ndAssume(initialized || !hasPrev)
+	ndAssume(!now.Before(prev))
+	signer := ndString("signer")
+	if ndBool("asAuthority") {
+		signer = k1.GetAuthority()
+	}
+	_, e1 := keeper.NewMsgServerImpl(k1).Init(ctx1, &types.MsgInit{Authority: signer})
+	_, e2 := keeper.NewMsgServerImpl(k2).Init(ctx2, &types.MsgInit{Authority: signer})
+	ndAssert((e1 == nil) == (e2 == nil), "same-outcome-of-the-message")
+	sameMinter := func() bool {
+		m1, _ := k1.Minter.Get(ctx1)
+		m2, _ := k2.Minter.Get(ctx2)
+		same := m1.Initialized == m2.Initialized && (m1.PreviousBlockTime == nil) == (m2.PreviousBlockTime == nil)
+		if same && m1.PreviousBlockTime != nil {
+			same = m1.PreviousBlockTime.Equal(*m2.PreviousBlockTime)
+		}
+		return same
+	}
+	ndAssert(sameMinter(), "same-stored-minter-after-the-message")
+	// the next block, at most a year later
+	next := ndTime("next")
+	ndAssume(!next.Before(now) && next.UnixNano()-prev.UnixNano() <= 31536000000000000)
+	b1 := BeginBlocker(ctx1.WithBlockTime(next), k1)
+	b2 := BeginBlocker(ctx2.WithBlockTime(next), k2)
+	ndAssert((b1 == nil) == (b2 == nil), "same-outcome-of-the-next-block")
+	ndAssert(bank1.minted.Equal(bank2.minted), "same-minted-amount")
+	ndAssert(sameMinter(), "same-stored-minter-after-the-next-block")
 	ndReach("ran")
 }
